@@ -145,7 +145,8 @@ def run(ctx):
     # LONG_MAX itself is the library's documented in-band null sentinel (excluded by the properties)
     grid["int"] = [x for x in grid["int"] if x != "9223372036854775807"]
     for e in range(-300, 301, 1 if not ctx.quick else 37):
-        for m in ("1.", "9.999999999999999", "1.0000000000000002", "4.9", "-2.5"):
+        # boundary mantissas of both signs: shortest, longest (15-17 significant digits), just above 1
+        for m in ("1.", "9.999999999999999", "1.0000000000000002", "4.9", "-2.5", "-9.999999999999999", "-1.23456789012345", "-1."):
             grid["real"].append("%sE%d" % (m, e))
     grid["real"] += ["1.0E400", "-1.0E400", "1.E-400", "0.", "-0.", "123456789012345678.", "1.7976931348623E308"]      # (values within 1e-14 of DBL_MAX are excluded)
     reqs = []
